@@ -34,7 +34,38 @@ def _model_dict(m):
     return out
 
 
+# Seconds this run has spent on obligations that did not end `proved` (shared by all worker processes of a check).  A run
+# with such obligations cannot end with `held`, so once the tally passes a threshold the remaining obligations get short
+# budgets only: a changed tree must not turn a minutes-long check into an hours-long one.  On a tree where every
+# obligation is proved the tally stays 0 and every obligation has the full budget.
+SHARED_TALLY = None
+_LOCAL_TALLY = [0.0]
+DEGRADE_AFTER_S = 300.0   # then: one 1.5 s attempt + 2 s search for a small counter-model
+SKIP_AFTER_S = 1500.0     # then: one 1 s attempt only
+
+
+def _tally(add=0.0):
+    if SHARED_TALLY is not None:
+        with SHARED_TALLY.get_lock():
+            SHARED_TALLY.value += add
+            return SHARED_TALLY.value
+    _LOCAL_TALLY[0] += add
+    return _LOCAL_TALLY[0]
+
+
 def discharge(vc, timeout_ms=10000, use_cvc5=True, keep_model=True):
+    spent = _tally()
+    v = _discharge(vc, timeout_ms, use_cvc5, keep_model, 2 if spent > SKIP_AFTER_S else (1 if spent > DEGRADE_AFTER_S else 0))
+    if v.status == "refuted":  # the run has its violation: further obligations only add detail
+        _tally(v.secs + 500.0)
+    elif v.status != "proved":
+        _tally(v.secs)
+    return v
+
+
+def _discharge(vc, timeout_ms, use_cvc5, keep_model, degraded):
+    if degraded:
+        timeout_ms = min(timeout_ms, 3000)
     split = vc.meta.get("split") if vc.meta else None
     if split is not None:
         # case split requested by the contract: every case and the complement must be discharged
@@ -44,7 +75,7 @@ def discharge(vc, timeout_ms=10000, use_cvc5=True, keep_model=True):
         worst = None
         for c in cases:
             sub = type(vc)(vc.name, list(vc.pc) + [c], vc.goal, {k: v for k, v in vc.meta.items() if k != "split"})
-            v = discharge(sub, timeout_ms, use_cvc5, keep_model)
+            v = _discharge(sub, timeout_ms, use_cvc5, keep_model, degraded)
             if v.status == "refuted":
                 v.secs = time.time() - t0
                 return v
@@ -58,7 +89,7 @@ def discharge(vc, timeout_ms=10000, use_cvc5=True, keep_model=True):
     t0 = time.time()
     # first a short attempt with everything (most obligations are easy)
     s1 = z3.Solver()
-    s1.set("timeout", min(3000, max(500, timeout_ms // 4)))
+    s1.set("timeout", (1500 if degraded == 1 else 1000) if degraded else min(3000, max(500, timeout_ms // 4)))
     for c in vc.pc:
         s1.add(c)
     s1.add(z3.Not(vc.goal))
@@ -68,6 +99,11 @@ def discharge(vc, timeout_ms=10000, use_cvc5=True, keep_model=True):
         r1 = z3.unknown
     if r1 == z3.unsat:
         return Verdict(vc.name, "proved", "z3", time.time() - t0, meta=vc.meta, smt_size=len(s1.sexpr()))
+    if degraded and r1 == z3.unknown:
+        m = _model_search(vc, s1, budget_s=2) if degraded == 1 else None
+        if m is not None:
+            return Verdict(vc.name, "refuted", "z3+enum", time.time() - t0, model=m if keep_model else None, meta=vc.meta)
+        return Verdict(vc.name, "unknown", "z3", time.time() - t0, reason="short budget only: this run already has undecided obligations", meta=vc.meta)
     if r1 == z3.unknown and use_cvc5:
         v = _cvc5(vc, s1, 5)
         if v is not None:
@@ -92,7 +128,7 @@ def discharge(vc, timeout_ms=10000, use_cvc5=True, keep_model=True):
     s = z3.Solver()
     # generous last attempt: an `unknown` on the unchanged tree is far more costly than a slow run (the machine that
     # runs the checks may be many times slower / busier than the one they were written on)
-    s.set("timeout", timeout_ms * 12)
+    s.set("timeout", timeout_ms * (1 if degraded else 12))
     for c in vc.pc:
         s.add(c)
     s.add(z3.Not(vc.goal))
@@ -125,12 +161,12 @@ def discharge(vc, timeout_ms=10000, use_cvc5=True, keep_model=True):
                        smt_size=len(s.sexpr()))
     reason = s.reason_unknown()
     # the solver could neither prove nor refute: look for a counter-model among small concrete parameter values
-    m = _model_search(vc, s)
+    m = _model_search(vc, s, budget_s=8 if degraded else 45)
     if m is not None:
         return Verdict(vc.name, "refuted", "z3+enum", time.time() - t0, model=m if keep_model else None, meta=vc.meta,
                        smt_size=len(s.sexpr()))
     if use_cvc5:
-        v = _cvc5(vc, s, max(30, 6 * timeout_ms // 1000))
+        v = _cvc5(vc, s, 5 if degraded else max(30, 6 * timeout_ms // 1000))
         if v is not None:
             v.secs = time.time() - t0
             return v
@@ -155,7 +191,7 @@ def _free_numeric_params(vc):
     return [out[k] for k in sorted(out)]
 
 
-def _model_search(vc, solver, tries=160, per_ms=250):
+def _model_search(vc, solver, tries=160, per_ms=250, budget_s=45):
     import random
 
     params = _free_numeric_params(vc)
@@ -165,7 +201,7 @@ def _model_search(vc, solver, tries=160, per_ms=250):
     ints = [0, 1, 2, 3, 4, 5, 6, 7, 8, 9, 10, 16, 32, 64, 100, 128]
     reals = ["0", "1", "2", "3", "1/2", "3/2", "5/2", "7/2", "1/4", "10", "100", "950", "1/10"]
     solver.set("timeout", per_ms)
-    t_end = time.time() + 45
+    t_end = time.time() + budget_s
     for k in range(tries):
         if time.time() > t_end:
             break
